@@ -416,6 +416,12 @@ def r02e(ctx):
             continue
         n += 1
         txt = ast.unparse(eq.node)
+        # plus the same-class helpers __eq__ calls on either operand (`self._stripped_text()` / `other._stripped_text()`)
+        for c_ in walk_no_nested(eq.node):
+            if isinstance(c_, ast.Call) and isinstance(c_.func, ast.Attribute):
+                h_ = m.method(q, c_.func.attr)
+                if h_ is not None and h_.cls == eq.cls and h_.node is not eq.node:
+                    txt += "\n" + ast.unparse(h_.node)
         if cname == "SequenceNode":
             comps = {"_children"}
         elif cname == "DataClassNode":
